@@ -20,8 +20,10 @@ var stressFieldNames = []string{"type", "func", "map", "range", "interface", "_l
 // (names of generated methods - equals, computeHash, marshalRestLi ... - as field names are the open known finding
 // KF-C12-field-method-clash and are kept out of the grammar; the witness test covers them)
 var plainTypeNames = []string{"Alpha", "Beta", "Gamma", "Delta", "Node", "Item", "Config", "Status", "Same", "Same", "Key", "Value", "Thing"}
-var stressTypeNames = []string{"Type", "Client", "Resource", "Elements", "Reader", "String", "Error", "PartialUpdate", "RequiredFields"}
-var namespaces = []string{"g.one", "g.two", "g.one.deep", "g.internal.x", "h"}
+// (names ending in a GOOS / GOARCH / test word: a generator deriving file names from them must not trip file-name build constraints)
+var stressTypeNames = []string{"ClientAndroid", "ClientWindows", "FooLinux", "BarAmd64", "BazTest", "ThingIos", "Type", "Client", "Resource", "Elements", "Reader", "String", "Error", "PartialUpdate", "RequiredFields"}
+// ("k.one" / "k.one.deep" share their last segments with "g.one" / "g.one.deep": prefixes chosen for clashing names must not depend on iteration order)
+var namespaces = []string{"g.one", "g.two", "g.one.deep", "g.internal.x", "h", "k.one", "k.one.deep"}
 
 // RandomManifest draws a well-formed schema set: records (fields of every type constructor, optional / default,
 // includes), enums, fixed, typerefs, unions (incl. nullable and single-member), complex keys, resources with any
